@@ -290,6 +290,17 @@ impl Registry {
 
         let segments = parse_pointer(pointer)?;
         let mut state = self.write_state();
+        // The function map was probed under the read lock above and that lock
+        // has been released: a callable may have been registered at this key
+        // in between. Look again now that the write lock is held, and call it
+        // instead of writing underneath it (the call itself runs unlocked,
+        // like the call above).
+        if let Some(f) = state.functions.get(key.as_ref()).cloned() {
+            drop(state);
+            return f
+                .call(ctx, Some(payload))
+                .map_err(|(code, message)| RegistryError::Execution { code, message });
+        }
         if segments.is_empty() {
             let Value::Object(object) = payload else {
                 return Err(RegistryError::RootWriteRequiresObject);
